@@ -88,7 +88,7 @@ fn pass_2_internal(segment: &Segment, common_context: &CommonContext) -> Result<
         common_context.set_special("pc".to_string(), Expr::Const(cur_address as i64));
         match item {
             Item::Instruction(op, op_args) => {
-                if common_context.get_device().check_operation(op) {
+                if common_context.get_device().check_instruction(op, op_args) {
                     let complete_op = match process(&op, &op_args, cur_address, common_context) {
                         Ok(ok) => ok,
                         Err(e) => bail!("{}, {}", e, line),
